@@ -31,6 +31,10 @@ def plans(tier):
         ((('add', 1), ('add', 2), ('add', 3)),),
         ((('insert', 1), ('insert', 2)), (('insert', 3),)),
         ((('spawn', 1), ('add', 2)), (('spawn', 3), ('insert', 4))),
+        # clear_queue() next to add / insert: a job that was accepted and not cleared still runs exactly once, a cleared one never
+        # (conformance only: the PlusCal model has no clear; TraceJobQueue has - its Lin places the clear between call and return)
+        ((('add', 1), ('add', 2), ('add', 3)), (('clear', 0), ('add', 4))),
+        ((('add', 1), ('insert', 2)), (('clear', 0),), (('insert', 3),)),
     ]
     if tier == 'thorough':
         out += [
@@ -61,6 +65,8 @@ def model_check(report, plan_list, tier):
     module = base.replace('AllProcs ==', defs + '\nAllProcs ==')
     checked = []
     for i, plan in enumerate(plan_list):
+        if any(op == 'clear' for ops in plan for op, _ in ops):
+            continue
         big = nops(plan) >= 4
         if tier != 'thorough' and big and len(plan) >= 3:
             continue                      # 3 clients x 4 jobs: ~9M states, thorough only
@@ -127,6 +133,8 @@ def run_plan(plan, behaviour, policy, line_level, observer=True):
                     control.add_job(TJob(j), 'job%d' % j)
                 elif op == 'insert':
                     control.insert_job(TJob(j), 'job%d' % j)
+                elif op == 'clear':
+                    control.clear_queue()
                 else:
                     control.spawn_job(TJob(j), 'job%d' % j)
                 events.append({'e': 'ret', 'c': cid, 'op': op, 'j': j})
@@ -168,7 +176,7 @@ def explore_task(task):
             out.append((behaviour, [c[1] for c in sched.choices], sched.events, mode))
     else:
         rng = random.Random(seed)
-        jobs = sorted({j for ops in plan for _, j in ops})
+        jobs = sorted({j for ops in plan for _, j in ops if j})
         for _ in range(budget):
             beh = {j: rng.choice(['finish', 'raise']) for j in jobs}
             sched = run_plan(plan, beh, detsched.RandomWalk(rng.randrange(2 ** 30), rng.choice([0.1, 0.3, 0.6])), True)
@@ -186,7 +194,7 @@ def run(report, replay=None):
     walks = 600 if tier == 'thorough' else 60
     tasks = []
     for pi, plan in enumerate(plan_list):
-        jobs = sorted({j for ops in plan for _, j in ops})
+        jobs = sorted({j for ops in plan for _, j in ops if j})
         behaviours = [{}, {jobs[0]: 'raise'}, {j: 'raise' for j in jobs}]
         for behaviour in behaviours[:3 if tier == 'thorough' else 2]:
             tasks.append((plan, behaviour, 'dfs-lines-k1', dfs_budget, 0))
